@@ -589,9 +589,11 @@ or a list of these
 
     if estimate_key:
         warnings.warn("key estimation", stacklevel=2)
-        _, mode, fifths = analysis.estimate_key(note_array)
-        key_sigs_by_track = {}
-        global_key_sigs = [(0, fifths_mode_to_key_name(fifths, mode))]
+        # estimate_key returns the key name; the key information of the
+        # file is discarded (the tracks with notes stay registered)
+        key_name = analysis.estimate_key(note_array)
+        key_sigs_by_track = dict((tr, []) for tr in key_sigs_by_track)
+        global_key_sigs = [(0, key_name)]
 
     if assign_note_ids:
         note_ids = ["n{}".format(i) for i in range(len(note_array))]
